@@ -158,13 +158,13 @@ theorem exit0_paths' (C : exit0_Ctx) (hG : exit0_Good C) (hm : C.env.stdinMode =
           have hfu : (sortedNames es).length + 1 +
               (if (Subdir.new = Subdir.new) then
                 (st.files.filter (fun x => x.1 == root ++ [47] ++ subdirName .cur)).length + 3 else 0) ≤
-              walkFuel st root np := by
+              walkFuel C.env st root np := by
             rw [World.length_sortedNames]
             simp only [if_true, walkFuel]
             omega
-          refine wpS_bind_mono (World.wpS_and (exit0_walk' C hG b.expr hstep (walkFuel st root np) _ st w3 b2 pre _ (sortedNames es) h3
+          refine wpS_bind_mono (World.wpS_and (exit0_walk' C hG b.expr hstep (walkFuel C.env st root np) _ st w3 b2 pre _ (sortedNames es) h3
             rfl rfl ⟨?_, hnp⟩ ⟨none, 0, hobj3⟩ hrem3 hs (fun _ => ⟨_, rfl⟩) hrokO hinvO hfu)
-            (dirsSame_walk C.env C.orc b.expr (walkFuel st root np) _ st b2 w3)) ?_
+            (dirsSame_walk C.env C.orc b.expr (walkFuel C.env st root np) _ st b2 w3)) ?_
           · intro d' hd'
             cases hd'
             simp [World.dirPath, hobj3]
